@@ -342,3 +342,81 @@ func c16ErrorDiscipline(c *Ctx, r *R) {
 		}
 	}
 }
+
+func init() {
+	reg(&eng.Rule{ID: "C16.restore-prior", Prop: "C16", Floor: 4,
+		Doc: "A compensator puts the managed reference back to what it was: DeleteReference(r) is used only on the edge where the value read from r before the operation is the zero id (the reference did not exist), and ResetDueToError / SetReference compensators are given that very value; on the edge where a prior value exists the reference is never deleted.",
+		Run: c16RestorePrior})
+}
+
+func c16RestorePrior(c *Ctx, r *R) {
+	for _, spec := range c16Funcs {
+		fn := r.Fn(spec)
+		if fn == nil {
+			continue
+		}
+		short := fname(fn)
+		for ref, refName := range managedRefs {
+			// the prior value: result of GetReference(ref) in this function
+			var priors []ssa.Value
+			for _, k := range eng.Calls(fn, false) {
+				if k.Method() == "GetReference" {
+					if s, isC := eng.ConstString(k.Arg(0)); isC && s == ref && k.Result(0) != nil {
+						priors = append(priors, k.Result(0))
+					}
+				}
+			}
+			isPrior := func(v ssa.Value) bool {
+				for _, p := range priors {
+					if sameObjVal(v, p) {
+						return true
+					}
+				}
+				return false
+			}
+			zero := eng.BoolEdges(fn, func(v ssa.Value) bool {
+				k, _, ok := eng.RootCall(v)
+				return ok && k.Method() == "IsZero" && k.Recv() != nil && isPrior(k.Recv())
+			}, true)
+			for i, k := range compensatorsFor(fn, ref) {
+				// only compensators: calls behind a failed log append (non-nil edge) — deletes in Discard etc. are operations
+				behindFailure := false
+				for _, a := range logAppendsFor(fn, ref) {
+					if ev, _ := a.ErrResult(); ev != nil {
+						for _, ne := range eng.UsesOfErr(ev).NonNilEdges {
+							if ne.To().Dominates(k.Block()) {
+								behindFailure = true
+							}
+						}
+					}
+				}
+				if !behindFailure {
+					continue
+				}
+				r.Site(1)
+				key := "restore:" + short + ":" + refName + ":" + itoa(i+1)
+				switch k.Callee.Name() {
+				case "DeleteReference":
+					dom := false
+					for _, e := range zero {
+						if eng.EdgeDominates(e, k.Block()) {
+							dom = true
+						}
+					}
+					r.Check(dom, key, k.Pos(), "the reference is deleted only where it did not exist before", "after a failed log append the managed reference "+ref+" is deleted on a path where it existed before the operation (instead of being reset to its prior value)")
+				case "ResetDueToError":
+					r.Check(isPrior(k.Arg(2)), key, k.Pos(), "reset to the value read before the operation", "ResetDueToError is not given the value read from "+ref+" before the operation")
+					nz := false
+					for _, e := range zero {
+						if eng.EdgeDominates(e, k.Block()) {
+							nz = true
+						}
+					}
+					r.Check(!nz || len(zero) == 0, key+":not-on-zero", k.Pos(), "reset is not attempted with the zero id", "ResetDueToError is called on the edge where the prior value is the zero id (nothing to reset to: the reference stays moved)")
+				case "SetReference":
+					r.Check(isPrior(k.Arg(1)), key, k.Pos(), "set back to the value read before the operation", "the compensating SetReference is not given the value read from "+ref+" before the operation")
+				}
+			}
+		}
+	}
+}
